@@ -110,6 +110,7 @@ type parkedG struct {
 	node, site string
 	k          int
 	ch         chan struct{}
+	thaw       time.Duration // "descheduled goroutine" fault: not runnable before this instant
 }
 
 func (p *parkedG) id() string { return fmt.Sprintf("%s/%s#%d", p.node, p.site, p.k) }
@@ -152,6 +153,13 @@ type Sim struct {
 
 	siteHits map[string]int64
 	overrun  bool
+
+	// descheduled-goroutine fault: a goroutine that parks at one of freezeSites stays
+	// parked (while virtual time may pass) for up to freezeMax with probability freezeProb
+	freezeSites map[string]bool
+	freezeProb  float64
+	freezeMax   time.Duration
+	frozen      int64
 }
 
 var curSim atomic.Pointer[Sim]
@@ -207,6 +215,19 @@ func (s *Sim) yield(site, node string) {
 	key := node + "/" + site
 	g.k = s.parkCount[key]
 	s.parkCount[key] = g.k + 1
+	if s.freezeProb > 0 {
+		base := site
+		if i := strings.IndexByte(site, ':'); i >= 0 {
+			base = site[:i]
+		}
+		if s.freezeSites[base] {
+			h := hash64(s.seed, 0xf2ee2e, hashStr(key), uint64(g.k))
+			if float64(h%100000)/100000 < s.freezeProb && s.freezeMax > 0 {
+				g.thaw = s.Now() + 1 + time.Duration((h>>24)%uint64(s.freezeMax))
+				s.frozen++
+			}
+		}
+	}
 	s.parked = append(s.parked, g)
 	if i := strings.IndexByte(site, ':'); i >= 0 {
 		s.siteHits[site[:i]]++
@@ -276,12 +297,21 @@ func (s *Sim) step() bool {
 			}
 		}
 	}
-	np := len(s.parked)
+	// frozen goroutines go to the back and are not candidates
+	sort.SliceStable(s.parked, func(i, j int) bool {
+		return (s.parked[i].thaw <= now) && !(s.parked[j].thaw <= now)
+	})
+	np := 0
+	for _, g := range s.parked {
+		if g.thaw <= now {
+			np++
+		}
+	}
 	if np == 0 && len(due) == 0 {
 		s.mu.Unlock()
 		return false
 	}
-	sort.Slice(s.parked, func(i, j int) bool {
+	sort.Slice(s.parked[:np], func(i, j int) bool {
 		a, b := s.parked[i], s.parked[j]
 		if a.node != b.node {
 			return a.node < b.node
@@ -354,6 +384,13 @@ func (s *Sim) RunUntil(until time.Duration, cond func() bool) bool {
 		if len(s.events) > 0 {
 			if d := s.events[0].at - now; d < wait {
 				wait = d
+			}
+		}
+		for _, g := range s.parked {
+			if g.thaw > now {
+				if d := g.thaw - now; d < wait {
+					wait = d
+				}
 			}
 		}
 		s.mu.Unlock()
